@@ -142,6 +142,10 @@ def run(facts, tier):
                     break
     res.oblige(1, True)
     res.functions_analysed = len(reach3)
+    # a re-used context answers like a fresh one that carries the current bindings: writer and readers of the prefix
+    # bindings agree (C10-5)
+    from props import c10
+    c10.c10_5(facts, res)
     # equal documents: item equality is structural
     from props import c04
     c04.structural_eq(facts, res, "R19-4")
